@@ -52,7 +52,7 @@ func newLine(node *cascadedNode, _ *svgContext) (drawable, error) {
 	return out, nil
 }
 
-func atan2(x, y Fl) Fl { return Fl(math.Atan2(float64(x), float64(y))) }
+func atan2(y, x Fl) Fl { return Fl(math.Atan2(float64(y), float64(x))) }
 
 func (l line) draw(dst backend.Canvas, _ *attributes, _ *SVGImage, dims drawingDims) []vertex {
 	x1, y1 := dims.point(l.x1, l.y1)
@@ -201,7 +201,7 @@ func (r polyline) draw(dst backend.Canvas, _ *attributes, _ *SVGImage, _ drawing
 	oldPoint := p1
 	for _, point := range points {
 		dst.LineTo(point.x, point.y)
-		angle := atan2(point.x-oldPoint.x, point.y-oldPoint.y)
+		angle := atan2(point.y-oldPoint.y, point.x-oldPoint.x)
 		vertices = append(vertices, vertex{point.x, point.y, angle})
 	}
 
